@@ -100,3 +100,26 @@ pub fn io_log(path: &str) -> bool {
         None => false,
     }
 }
+
+/// the next `n` attempts to take SQLite's WAL write lock fail (lock held by "somebody else"); 0 disarms
+pub fn lock_busy(n: i64) -> bool {
+    match sym("tcss_lock_busy") {
+        Some(p) => {
+            let f: extern "C" fn(libc::c_long) = unsafe { std::mem::transmute(p) };
+            f(n as libc::c_long);
+            true
+        }
+        None => false,
+    }
+}
+
+/// how many lock attempts have been refused since the last `lock_busy`
+pub fn lock_busy_seen() -> i64 {
+    match sym("tcss_lock_busy_seen") {
+        Some(p) => {
+            let f: extern "C" fn() -> libc::c_long = unsafe { std::mem::transmute(p) };
+            f() as i64
+        }
+        None => -1,
+    }
+}
